@@ -101,7 +101,7 @@ def run(chk, replay=None):
     for fmt in sorted(dec):
         gen = datafmt.GEN.get(fmt.split("/")[0])
         bases = []
-        for _ in range(3 if chk.quick else 12):
+        for _ in range(3 if chk.quick else 40):
             if gen is not None:
                 bases.append(gen(rng))
             elif fmt == "Sense":
